@@ -14,6 +14,18 @@ mod wire;
 
 use std::io::{BufRead, BufWriter, Write};
 
+struct NullLogger;
+impl log::Log for NullLogger {
+    fn enabled(&self, _: &log::Metadata) -> bool {
+        true
+    }
+    fn log(&self, record: &log::Record) {
+        // format the message (this is what evaluates the arguments), then drop it
+        let _ = std::hint::black_box(format!("{}", record.args()).len());
+    }
+    fn flush(&self) {}
+}
+
 fn usage() -> ! {
     eprintln!("usage: dltv gen <prop> <quick|thorough> <seed> <out.cases>\n       dltv run <prop> <in.cases> <out.impl>");
     std::process::exit(2)
@@ -43,6 +55,13 @@ fn main() {
             // panics are outcomes here, not diagnostics
             std::panic::set_hook(Box::new(|_| {}));
             let prop = args[2].clone();
+            if prop == "C03" {
+                // the crate's trace!/dbg_parsed sites evaluate their arguments (slices of the parsed
+                // bytes, Debug of the values) only when a logger is enabled at trace level
+                static NULL: NullLogger = NullLogger;
+                let _ = log::set_logger(&NULL);
+                log::set_max_level(log::LevelFilter::Trace);
+            }
             let inp = std::io::BufReader::new(std::fs::File::open(&args[3]).expect("open"));
             let mut f = BufWriter::new(std::fs::File::create(&args[4]).expect("create"));
             for line in inp.lines() {
